@@ -59,7 +59,8 @@ def find_cgr(rel):
         entries.append((ord(ch), x, y))
     centre = pts.get("cgr_center")
     centre_ok = centre is not None and all(re.sub(r"\s", "", c) == "vecsize/2.0" for c in centre)
-    if not entries: return None
+    # only the literal ten-entry table is trusted as a pattern; anything else is read through the harness
+    if len(entries) != 10 or len(set(e[0] for e in entries)) != 10: return None
     return entries, centre_ok
 
 
@@ -202,9 +203,12 @@ def main(out_path, report_path):
                        ("table_kmer_minimisers", "kmer/src/kmer_minimisers.rs")]:
         t = find_table(rel)
         source = "translated"
-        if t is None:
-            t = observe({"table_kmer": "nt4k", "table_minimiser": "nt4m", "table_kmer_minimisers": "nt4km"}[ident])
-            source = "observed"
+        # the exhaustive observation (all 256 bytes through the iterator itself) is the stronger reading: when it is
+        # available and disagrees with what the pattern read, the pattern has misread a rewritten source
+        o = observe({"table_kmer": "nt4k", "table_minimiser": "nt4m", "table_kmer_minimisers": "nt4km"}[ident])
+        if o is not None and t != o:
+            source = "observed" if t is None else "observed (the literal table in the source reads differently)"
+            t = o
         if t is None:
             report["missing"].append(ident)
             continue
@@ -231,6 +235,11 @@ def main(out_path, report_path):
     for ident, rel in [("cgr", "composition/src/cgr.rs"), ("oligocgr", "composition/src/oligocgr.rs")]:
         c = find_cgr(rel)
         how = "translated"
+        if c is not None and ident == "cgr":
+            o = observe("cgr")
+            if o is not None:
+                seen = sorted((b, "true" if v & 2 else "false", "true" if v & 1 else "false") for b, v in enumerate(o) if v < 4)
+                if seen != sorted(c[0]): c = None          # the pattern misread a rewritten table: take the observation
         if c is None:
             # observed through CgrComputer (both copies feed the same comparison; the k-mer CGR copy is private
             # and is validated by the correspondence of the ocgr op)
